@@ -36,7 +36,7 @@ PROPS = {
                       "HRP (reading R4: an upper-case prefix makes MockApiBech reject its own addresses); all-uppercase addresses are not 'strictly "
                       "decodable' (they are rejected as not normalized, like cosmwasm-std does).",
         "props_module": "CwMt.Props.C18",
-        "slices": [{"name": "addr", "quick": 3000, "thorough": 24000, "predicate": "pred_addr", "nontrivial": "nt_addr"}],
+        "slices": [{"name": "addr", "quick": 3000, "thorough": 60000, "predicate": "pred_addr", "nontrivial": "nt_addr"}],
         "rule": "per case one (variant, prefix) from 19 valid prefixes (1..83 chars, edge characters, embedded '1') and one scenario: round trips with "
                 "byte lengths 0, 1..64 (uniform), 65..100, 255, 256, 560..660 (code-length boundary); single-character corruption of a valid address "
                 "at every position x {2 charset chars, 1 non-charset char, case flip} and at selected positions (all positions in the thorough tier) "
